@@ -4,15 +4,129 @@ package main
 
 import (
 	"bytes"
+	"sort"
+	"strconv"
 	"fmt"
 
 	"golang.org/x/crypto/ssh"
 	"verifharness/hx"
 )
 
+// feature tags of the op being generated; every unordered pair is counted as pair.<a>+<b>
+var tags []string
+
+func tag(s string) { tags = append(tags, s) }
+func flushPairs(g *hx.Gen) {
+	sort.Strings(tags)
+	for i := range tags {
+		for j := i + 1; j < len(tags); j++ {
+			if tags[i] != tags[j] {
+				g.Stat("pair." + tags[i] + "+" + tags[j])
+			}
+		}
+	}
+	tags = tags[:0]
+}
+
+func opTags(pwLen, saltLen, rounds, kl, lay int) {
+	switch {
+	case pwLen == 0:
+		tag("pw.empty")
+	case pwLen == 1:
+		tag("pw.1byte")
+	case pwLen >= 63 && pwLen <= 65, pwLen >= 127 && pwLen <= 129:
+		tag("pw.sha512-block-boundary")
+	case pwLen > 72:
+		tag("pw.over72")
+	default:
+		tag("pw.other")
+	}
+	switch {
+	case saltLen == 0:
+		tag("salt.empty")
+	case saltLen > 1<<20:
+		tag("salt.over-1MiB")
+	case saltLen == 1<<20:
+		tag("salt.exactly-1MiB")
+	case saltLen <= 4:
+		tag("salt.1-4")
+	default:
+		tag("salt.other")
+	}
+	switch {
+	case rounds < 1:
+		tag("rounds.nonpositive")
+	case rounds == 1:
+		tag("rounds.1")
+	default:
+		tag("rounds.2plus")
+	}
+	switch {
+	case kl < 0:
+		tag("keylen.negative")
+	case kl == 0:
+		tag("keylen.0")
+	case kl > 1024:
+		tag("keylen.over1024")
+	case kl == 1024:
+		tag("keylen.1024")
+	case kl%32 == 0:
+		tag("keylen.multiple-of-32")
+	case kl < 32:
+		tag("keylen.below-32")
+	default:
+		tag("keylen.partial-last-block")
+	}
+	tag("lay." + strconv.Itoa(lay))
+}
+
 func gen(g *hx.Gen) {
-	n := g.Count(150, 1500)
+	n := g.Count(110, 1500)
 	r := g.R
+	// ---- systematic: every PAIR of special argument classes (two invalid arguments at once decide
+	// which check fires first: error vs. the negative-keyLen panic), memory layout rotating
+	type arg struct{ pw, salt, rep, rounds, kl int }
+	base := arg{3, 3, 1, 1, 16}
+	mods := []func(a *arg){
+		func(a *arg) { a.rounds = 0 }, func(a *arg) { a.pw = 0 }, func(a *arg) { a.salt = 0 },
+		func(a *arg) { a.salt, a.rep = 1, 1<<20 + 1 }, func(a *arg) { a.kl = 1025 }, func(a *arg) { a.kl = -1 },
+		func(a *arg) { a.kl = 0 }, func(a *arg) { a.pw = 1 }, func(a *arg) { a.pw = 64 }, func(a *arg) { a.pw = 100 },
+		func(a *arg) { a.rounds = 2 }, func(a *arg) { a.kl = 33 }, func(a *arg) { a.kl = 64 }, func(a *arg) { a.salt = 32 },
+	}
+	cnt := 0
+	for i := range mods {
+		for j := i + 1; j < len(mods); j++ {
+			a := base
+			mods[i](&a)
+			mods[j](&a)
+			lay := cnt % 3
+			cnt++
+			opTags(a.pw, a.salt*a.rep, a.rounds, a.kl, lay)
+			flushPairs(g)
+			g.Stat("op.key.pairwise")
+			g.Emit("key pw=%s salt=%s rep=%d rounds=%d keylen=%d lay=%d", hx.Hex(r.Bytes(a.pw)), hx.Hex(r.Bytes(a.salt)), a.rep, a.rounds, a.kl, lay)
+		}
+	}
+	{ // the documented maximum key length once per layout (32 blocks)
+		for lay := 0; lay < 3; lay++ {
+			opTags(8, 8, 1, 1024, lay)
+			flushPairs(g)
+			g.Emit("key pw=%s salt=%s rep=1 rounds=1 keylen=1024 lay=%d", hx.Hex(r.Bytes(8)), hx.Hex(r.Bytes(8)), lay)
+		}
+	}
+	// ---- systematic: every memory layout x every argument class that is cheap (errors, tiny keys)
+	for lay := 0; lay < 3; lay++ {
+		for _, c := range []struct {
+			pw, salt      int
+			rounds, kl int
+		}{{1, 1, 0, 32}, {0, 4, 1, 32}, {3, 0, 1, 32}, {3, 3, 1, 1025}, {3, 3, 1, -1}, {3, 3, 1, 0}, {3, 3, -2, 16},
+			{1, 1, 1, 1}, {64, 4, 1, 32}, {65, 5, 2, 33}, {73, 16, 1, 64}, {128, 2, 2, 31}, {5, 64, 1, 65}} {
+			opTags(c.pw, c.salt, c.rounds, c.kl, lay)
+			flushPairs(g)
+			g.Stat("op.key.systematic")
+			g.Emit("key pw=%s salt=%s rep=1 rounds=%d keylen=%d lay=%d", hx.Hex(r.Bytes(c.pw)), hx.Hex(r.Bytes(c.salt)), c.rounds, c.kl, lay)
+		}
+	}
 	for i := 0; i < n; i++ {
 		pw := r.Bytes(r.Range(1, 100))
 		if r.Chance(1, 6) {
@@ -73,6 +187,8 @@ func gen(g *hx.Gen) {
 		// 1 = the password sits directly behind the salt INSIDE the salt slice's capacity; 2 = password first
 		lay := r.Intn(3)
 		g.Stat(fmt.Sprintf("layout.%d", lay))
+		opTags(len(pw), len(salt)*rep, rounds, kl, lay)
+		flushPairs(g)
 		g.Emit("key pw=%s salt=%s rep=%d rounds=%d keylen=%d lay=%d", hx.Hex(pw), hx.Hex(salt), rep, rounds, kl, lay)
 	}
 }
